@@ -1,5 +1,14 @@
 (* C20 — text rendering is well formed, faithful and independent of encoder history.
-   Statements only; each is closed by [exact] of a lemma proved elsewhere. *)
+   Statements only; each is closed by [exact] of a lemma proved elsewhere.
+   Scope of the statements (see docs/C20.md): floats are opaque tokens (parse_render is for
+   float-free schemas); every theorem about rendered text is conditional on [render = Ok]
+   (totality of the walk is proved for flat structs only, C20_render_total_flat_partial);
+   one cached schema message per encoder (all types of one schema file);
+   "the same field values as the generated accessors" is C20_slot_value_eq_accessor /
+   C20_shown_struct_via_accessors over the accessor specification [accessor] of TextM.v, which is
+   written from the capnpc-go templates and pointer.go but is NOT linked by a theorem to the
+   accessor models of C15 (Layout.gen_getter) / C19 (PogsM.gen_getter): that link is by the
+   differential runs (generated accessors of aircraftlib vs the text, wrong-kind pointers included). *)
 From CV Require Import Text.Strquote Text.TextSpec Text.StrquoteProofs Text.TextM Text.TextProofs.
 Open Scope Z_scope.
 
@@ -39,7 +48,8 @@ Theorem C20_parse_print : forall t, wf_tval t -> parse_text (print t) = Some t.
 Proof. exact parse_print. Qed.
 Print Assumptions C20_parse_print.
 
-(* all float-free schemas with identifier names, all stored values, all encoder states:
+(* all float-free schemas with identifier names, all stored values, every configuration, on a
+   FRESH encoder ([render]/[shown] start from the empty cache; used encoders: the next theorem):
    what Encode writes is read back as exactly the field values the walk shows *)
 Theorem C20_parse_render : forall ffmt c sc fuel id v out,
   schema_ok sc -> rval_ok v ->
@@ -47,6 +57,14 @@ Theorem C20_parse_render : forall ffmt c sc fuel id v out,
   exists t, shown ffmt c sc fuel id v = Ok t /\ out = print t /\ wf_tval t /\ parse_text out = Some t.
 Proof. exact parse_render. Qed.
 Print Assumptions C20_parse_render.
+
+(* the same on a used encoder: any cache state, i.e. after any history *)
+Theorem C20_parse_encode_any_state : forall ffmt c sc fuel id v st out,
+  c_fixed c = true -> s_load sc <= c_limit0 c -> schema_ok sc -> rval_ok v ->
+  fst (encode ffmt c sc fuel id v st) = Ok out ->
+  exists t, shown ffmt c sc fuel id v = Ok t /\ out = print t /\ wf_tval t /\ parse_text out = Some t.
+Proof. exact parse_encode_any_state. Qed.
+Print Assumptions C20_parse_encode_any_state.
 
 Theorem C20_render_faithful : forall ffmt c sc fuel id1 v1 id2 v2 out,
   schema_ok sc -> rval_ok v1 -> rval_ok v2 ->
@@ -97,3 +115,31 @@ Theorem C20_encode_list_history_independent : forall ffmt c fuel reg0 ops id l,
   fst (encode_list_e ffmt c fuel id l st) = fst (encode_list ffmt c (es_reg st) fuel id l None).
 Proof. exact encode_list_history_independent. Qed.
 Print Assumptions C20_encode_list_history_independent.
+
+(* ---- "shows the same field values as the generated accessors": a slot is rendered as the
+   value its generated accessor returns (Ptr.TextBytesDefault / DataDefault / StructDefault /
+   ListDefault semantics: the default also for a non-null pointer of the wrong kind), for all
+   data sections, pointer sections (wrong-kind pointers included), offsets, types and defaults;
+   and marshalStruct is the code-order walk reading every slot through its accessor. *)
+Theorem C20_slot_value_eq_accessor : forall ffmt c sc rs rl exp data ptrs off t dflt dptr dpcost st,
+  c_acc c = true ->
+  slot_value ffmt c sc rs rl exp data ptrs off t dflt dptr dpcost st
+  = show_aval ffmt c sc rs rl exp dpcost (accessor data ptrs off t dflt dptr) st.
+Proof. exact slot_value_eq_accessor. Qed.
+Print Assumptions C20_slot_value_eq_accessor.
+
+Theorem C20_shown_struct_via_accessors : forall ffmt c sc f exp id data ptrs st,
+  c_acc c = true ->
+  shown_struct ffmt c sc (S f) exp id data ptrs st =
+  (find c sc ;;
+   match lookup (s_nodes sc) id with
+   | None => fail ENotFound
+   | Some (NStruct dcount doff fcost fields) =>
+     let disc := if 0 <? dcount then get_le data (doff * 2) 2 else 0 in
+     charge fcost ;;
+     fs <- collect_fields (field_step_acc ffmt c sc f exp disc data ptrs) fields ;;
+     ret (TvStruct fs)
+   | Some _ => fail ENotStruct
+   end) st.
+Proof. exact shown_struct_via_accessors. Qed.
+Print Assumptions C20_shown_struct_via_accessors.
